@@ -6,6 +6,7 @@ is handled by RDFLib.
 import itertools
 import logging
 import os
+import re
 from collections import deque
 from enum import Enum
 
@@ -720,8 +721,8 @@ class Transpiler(object):
                 # base.. For example, 12.3<sep/>5 represents 12.3 times 10^5. The default
                 # presentation of this example is 12.3e5.
                 if len(node) == 1 and node[0].tag == with_ns(XmlNs.MATHML, 'sep'):
-                    mantissa = node.text.strip()
-                    exponent = int(node[0].tail.strip())
+                    mantissa = self._number_text(node, node.text, _CN_DECIMAL)
+                    exponent = int(self._number_text(node, node[0].tail, _CN_INTEGER))
                     number = float('%se%d' % (mantissa, exponent))
                 else:
                     raise ValueError('Expecting '
@@ -730,13 +731,24 @@ class Transpiler(object):
             else:
                 raise ValueError('Unimplemented type attribute for <cn>: ' + node.attrib['type'])
         else:
-            number = float(node.text.strip())
+            number = float(self._number_text(node, node.text, _CN_REAL))
 
         # Get units, if given
         # TODO: We're allowing these to _not_ be set for testing only. Maybe remove this option?
         units = node.get(with_ns(XmlNs.CELLML, 'units'))
 
         return self.number_generator(number, units)
+
+    @staticmethod
+    def _number_text(node, text, lexical_form):
+        """Returns the (stripped) text of a part of a <cn> element, checking that it is written as a number.
+
+        ``float`` and ``int`` would also accept ``1_000``, ``nan``, ``inf`` and non-ASCII digits.
+        """
+        text = (text or '').strip()
+        if not lexical_form.fullmatch(text):
+            raise ValueError('Malformed number "%s" in %s' % (text, _dump_node(node)))
+        return text
 
     # BASIC CONTENT ELEMENTS #######################################################################
 
@@ -1031,6 +1043,12 @@ _SIMPLE_MATHML_TO_SYMPY_CLASSES = {
 
 # MathML tags, to SYmpy mappings that can be changes (copy to allow original mapping to be accesible)
 SIMPLE_MATHML_TO_SYMPY_CLASSES = _SIMPLE_MATHML_TO_SYMPY_CLASSES.copy()
+
+# Lexical forms of the numbers in <cn>: a decimal (the significand of e-notation), an integer (its exponent) and a
+# real number, i.e. a decimal with an optional exponent
+_CN_DECIMAL = re.compile(r'[+-]?([0-9]+\.?[0-9]*|\.[0-9]+)')
+_CN_INTEGER = re.compile(r'[+-]?[0-9]+')
+_CN_REAL = re.compile(_CN_DECIMAL.pattern + r'([eE][+-]?[0-9]+)?')
 
 # MathML relation elements that are n-ary operators
 MATHML_NARY_RELATIONS = {'eq', 'leq', 'lt', 'geq', 'gt'}
